@@ -60,7 +60,7 @@ def run(ctx):
             if not rel(d_rev, d_fd_rev, 2e-5):
                 ctx.violate(f"reverse beamspread gives virtual distance {d_rev}, the ray tube launched at the last point gives {d_fd_rev}", cj, {"kind": "ray_tube_reverse", "legs": n - 1})
         # scaling: the whole geometry times s -> beamspread / sqrt(s)
-        s = float(rng.uniform(0.2, 5.0))
+        s = float(rng.uniform(0.2, 5.0)) if len(meta) and (id(path) // 64) % 3 else float([1e-6, 1e-4, 3e-8][(id(path) // 64) % 3])
         import arim.geometry as g
         scaled_ifaces = []
         for i in path.interfaces:
@@ -70,8 +70,28 @@ def run(ctx):
         p2 = arim.Path(tuple(scaled_ifaces), path.materials, path.modes, name=path.name)
         arim.ray.ray_tracing_for_paths([p2])
         b2 = float(model.beamspread_2d_for_path(ray.RayGeometry.from_path(p2))[0, 0])
+        ctx.count("scaling:" + ("ordinary" if s > 0.1 else "micro"))
         if not rel(b2, b / np.sqrt(s), 1e-9):
             ctx.violate(f"scaling the geometry by {s} does not scale the beamspread by 1/sqrt(s)", cj, {"kind": "scaling"})
+        # another system of units (micrometres and picoseconds: lengths x 1e6, velocities x 1e-6): the beamspread only sees the
+        # leg lengths (x 1e6) and the ratios of the velocities (unchanged)
+        mats_u = {}
+        for m_ in path.materials:
+            if id(m_) not in mats_u:
+                mats_u[id(m_)] = arim.Material(m_.longitudinal_vel * 1e-6, None if m_.transverse_vel is None else m_.transverse_vel * 1e-6,
+                                               density=m_.density, state_of_matter=m_.state_of_matter.name)
+        un_if = []
+        for i in path.interfaces:
+            P = g.Points(i.points.coords * 1e6, i.points.name)
+            un_if.append(arim.Interface(P, i.orientations, i.kind, i.transmission_reflection, None if i.reflection_against is None else mats_u.get(id(i.reflection_against), i.reflection_against),
+                                        i.are_normals_on_inc_rays_side, i.are_normals_on_out_rays_side))
+        p_u = arim.Path(tuple(un_if), tuple(mats_u[id(m_)] for m_ in path.materials), path.modes, name=path.name)
+        arim.ray.ray_tracing_for_paths([p_u])
+        if np.array_equal(p_u.rays.indices, path.rays.indices):
+            b_u = float(model.beamspread_2d_for_path(ray.RayGeometry.from_path(p_u))[0, 0])
+            ctx.count("unit_system:um_ps")
+            if not rel(b_u, b / np.sqrt(1e6), 1e-9):
+                ctx.violate(f"the same inspection in micrometres and picoseconds gives beamspread {b_u!r} instead of {b / np.sqrt(1e6)!r}", cj, {"kind": "unit_system"})
         # rigid motion: the same inspection in another plane of the global frame (points, local frames rotated and
         # shifted together) has the same leg lengths, velocities and incidence angles, hence the same beamspread
         import fixtures
